@@ -1215,18 +1215,26 @@ class AsyncBackgroundBatcher(Generic[A_contra, R_co]):
         cache, after :attr:`retention_timeout` if one is configured.
         """
         fut.cancelled() or fut.exception()  # Mark exception as retrieved
-        if self.retention_timeout > 0:
+        if (self.retention_timeout > 0
+                and self._retention_cache.get(key) is fut):
+            # The retention time started when the answer was set, which
+            # may be a while ago if the loop wasn't running in between
+            expiry = self._retention_expiry.setdefault(
+                key, self._loop.time() + self.retention_timeout,
+            )
+            self._loop.call_at(expiry, self._evict, key, fut)
+        else:
+            self._evict(key, fut)
+
+    def _retain(self, key: str, fut: 'aio.Future[R_co]') -> None:
+        """
+        Start the retention time of a future which just got its answer.
+        """
+        if (self.retention_timeout > 0
+                and self._retention_cache.get(key) is fut):
             self._retention_expiry[key] = (
                 self._loop.time() + self.retention_timeout
             )
-            self._loop.call_later(
-                self.retention_timeout,
-                self._evict,
-                key,
-                fut,
-            )
-        else:
-            self._evict(key, fut)
 
     def _evict(self, key: str, fut: 'aio.Future[R_co]') -> None:
         """
@@ -1331,6 +1339,7 @@ class AsyncBackgroundBatcher(Generic[A_contra, R_co]):
                             fut.set_exception(result)
                         else:
                             fut.set_result(result)
+                        self._retain(key, fut)
                         # Only forget the future once it has its answer:
                         # setting it may fail (e.g. a StopIteration can't
                         # be set on a future) and it must be failed below
@@ -1351,8 +1360,9 @@ class AsyncBackgroundBatcher(Generic[A_contra, R_co]):
                 # Can't be set on a future: wrap it like generators do
                 err = RuntimeError("batch function raised StopIteration")
                 err.__cause__ = e
-            for fut in futs.values():
+            for key, fut in futs.items():
                 fut.set_exception(err)
+                self._retain(key, fut)
             if not isinstance(e, Exception):
                 raise  # Don't swallow cancellation, interrupts, etc.
             return
@@ -1361,6 +1371,7 @@ class AsyncBackgroundBatcher(Generic[A_contra, R_co]):
             logger.error("Missing outputs for %d futures", len(futs))
             for key, fut in futs.items():
                 fut.set_exception(ValueError(f"Missing result for {key!r}"))
+                self._retain(key, fut)
 
 
 _CROSS_LOOP_POOL = ThreadPoolExecutor(32)
